@@ -14,5 +14,5 @@ package markup
 //@   requires lineParser != nil
 //@   modifies fields(lineParser)
 //@   ensures (err == nil) == parseOk(input)
-//@   ensures err == nil ==> res != nil && fresh(res) && res.src == input
+//@   ensures err == nil ==> res != nil && fresh(res) && res.src == input && res.Text == parsedText(input) && len(res.Attributes) == parsedAttrs(input)
 //@   ensures err != nil ==> res == nil
